@@ -295,4 +295,13 @@ def run_world(seed, build, trace=None, max_steps=100000, yield_prob=1.0,
     res['thread_errors'] = [(n, e) for n, e, tb in sim.thread_errors]
     res['nevents']  = len(sim.events)
     res['sim']      = sim
+    # default abstract state of a run (checks may set a sharper one): which
+    # event kinds occurred, how often (order of magnitude), which faults and
+    # probes fired
+    hist = dict()
+    for e in sim.events:
+        hist[e['kind']] = hist.get(e['kind'], 0) + 1
+    res.setdefault('state_fp', [sorted((k, n.bit_length())
+                                       for k, n in hist.items()),
+                                sorted(sim.faults), sorted(sim.probes)])
     return res
